@@ -139,6 +139,9 @@ func cmdRecord(args []string) int {
 	parserName := fs.String("parser", "default", "parser the histories run on (option list, see options.go)")
 	hostAlpha := fs.String("host-alphabet", "", "JSON array of code points: enumerate every host over it up to -host-len and record parse events for it (IDNA pipeline)")
 	hostLen := fs.Int("host-len", 3, "")
+	scanN := fs.Int("scan", 0, "novelty scan: explore this many token-generated calls on the real code, record one representative per behaviour class (scan.go)")
+	scanKeep := fs.Int("scan-keep", 20000, "at most this many representatives")
+	scanSetters := fs.Int("scan-setter-percent", 30, "share of scanned calls that are (start URL, setter, value)")
 	fs.Parse(args)
 	var pinnedInputs []string
 	if *pinned != "" {
@@ -187,9 +190,16 @@ func cmdRecord(args []string) int {
 		rec(nil, *hostLen)
 		*n = 0 // only the enumerated hosts
 	}
+	var scanned []scanCand
+	if *scanN > 0 {
+		var classes int
+		scanned, classes = scanCandidates(r, recP, *scanN, *scanKeep, *scanSetters)
+		fmt.Printf("SCAN explored=%d classes=%d kept=%d\n", *scanN, classes, len(scanned))
+		*n = 0
+	}
 	total, hists := 0, 0
 	const NH = 3
-	for total < *n || len(pinnedInputs) > 0 {
+	for total < *n || len(pinnedInputs) > 0 || len(scanned) > 0 {
 		w := ws[hists%*chunks]
 		hists++
 		m := interp.New(recP, NH)
@@ -249,6 +259,18 @@ func cmdRecord(args []string) int {
 			return !fail
 		}
 		// start
+		if len(scanned) > 0 {
+			c := scanned[0]
+			scanned = scanned[1:]
+			st := interp.Step{Op: "parse", H: 1, A: c.In}
+			if c.Base != nil {
+				st.Bs = []proj.Text{c.Base}
+			}
+			if do(st) && c.Setter != "" {
+				do(interp.Step{Op: "set", H: 1, N: c.Setter, A: c.Val})
+			}
+			continue
+		}
 		if len(pinnedInputs) > 0 {
 			do(interp.Step{Op: "parse", H: 1, A: proj.FromGo(pinnedInputs[0])})
 			pinnedInputs = pinnedInputs[1:]
